@@ -41,7 +41,9 @@ class World:
         self.layout = layout
         self.mdir = os.path.join(sandbox, self.LAYOUTS[layout][0])
         self.ldir = os.path.join(sandbox, self.LAYOUTS[layout][1])
+        self.ldir2 = os.path.join(sandbox, "lib_b")  # second library folder (pool entries with a "lib2" part)
         os.makedirs(self.mdir)
+        os.makedirs(self.ldir2)
         if symlink_sub is None:
             symlink_sub = vals_seed % 2 == 1
         if symlink_sub:
@@ -58,6 +60,8 @@ class World:
             self.files["model:" + fn] = (_vals(rng), False)
         for fn in self.ent["lib"]:
             self.files["lib:" + fn] = (_vals(rng), False)
+        for fn in self.ent.get("lib2", {}):
+            self.files["lib2:" + fn] = (_vals(rng), False)
         self.late = dict(self.ent.get("late", {}))
         for k in self.files:
             self.write(k)
@@ -71,6 +75,7 @@ class World:
         w.layout = layout
         w.mdir = os.path.join(sandbox, cls.LAYOUTS[layout][0])
         w.ldir = os.path.join(sandbox, cls.LAYOUTS[layout][1])
+        w.ldir2 = os.path.join(sandbox, "lib_b")
         w.ent = cp.POOL[name]
         w.files = {k: (dict(v[0]), bool(v[1])) for k, v in files.items()}
         w.late = dict(late)
@@ -79,13 +84,13 @@ class World:
 
     def path(self, key):
         where, fn = key.split(":")
-        return os.path.join(self.mdir if where == "model" else self.ldir, fn)
+        return os.path.join({"model": self.mdir, "lib": self.ldir, "lib2": self.ldir2}[where], fn)
 
     def template(self, key):
         where, fn = key.split(":")
         if key in self.ent.get("late", {}):
             return self.ent["late"][key]
-        return self.ent["model" if where == "model" else "lib"][fn]
+        return self.ent[where][fn]
 
     def write(self, key, mtime_us=None):
         vals, extra = self.files[key]
@@ -111,9 +116,12 @@ class World:
             t = cm + 1000
         return t
 
+    def lib_folders(self):
+        return [self.ldir] + ([self.ldir2] if self.ent.get("lib2") else [])
+
     def options(self, optset, mode):
         o = dict(cp.OPTION_SETS[optset])
-        o["library_folders"] = [self.ldir]
+        o["library_folders"] = self.lib_folders()
         if mode == "codegen":
             o["codegen"] = True
         else:
@@ -122,7 +130,7 @@ class World:
 
     def ref_options(self, optset):
         o = dict(cp.OPTION_SETS[optset])
-        o["library_folders"] = [self.ldir]
+        o["library_folders"] = self.lib_folders()
         o["cache"] = False
         o["codegen"] = False
         o["expand_mx"] = True
@@ -310,7 +318,7 @@ class Engine:
         surviving cache file was written for."""
         name = rng.choice(["Tank", "Ali", "Str", "UsesLib"])
         ent = cp.POOL[name]
-        keys = ["model:" + f for f in ent["model"]] + ["lib:" + f for f in ent["lib"]]
+        keys = ["model:" + f for f in ent["model"]] + ["lib:" + f for f in ent["lib"]] + ["lib2:" + f for f in ent.get("lib2", {})]
         opt_a = 0 if rng.random() < 0.5 else rng.randrange(len(cp.OPTION_SETS))
         opt_b = self._other_optset(rng, name, opt_a)
         cause = rng.choice(["options", "options", "options", "edit", "version", "none"])
@@ -340,7 +348,7 @@ class Engine:
     def gen_history(self, rng, codegen=False):
         name = rng.choice(MODELS if not codegen else ["Tank", "Ali", "Str", "UsesLib"])
         ent = cp.POOL[name]
-        keys = ["model:" + f for f in ent["model"]] + ["lib:" + f for f in ent["lib"]]
+        keys = ["model:" + f for f in ent["model"]] + ["lib:" + f for f in ent["lib"]] + ["lib2:" + f for f in ent.get("lib2", {})]
         kinds = {"transfer": 6, "edit": 4}
         for k, w in (("options", 1.5), ("version", 1), ("restart", 1.5), ("clock", 1.5)):
             if rng.random() < 0.7:
@@ -582,7 +590,7 @@ class Engine:
                         continue  # not an edit
                     world.files[key] = (op["vals"], op["extra"])
                     world.write(key, world.edit_time_us())
-                    pending.add("lib_mtime" if key.startswith("lib:") else "source_mtime")
+                    pending.add("lib_mtime" if key.startswith("lib") else "source_mtime")
                 elif k == "add":
                     if not world.late:
                         continue
@@ -751,7 +759,7 @@ class Engine:
                         continue
                     world.files[key] = (op["vals"], op["extra"])
                     world.write(key, world.edit_time_us())
-                    pending.add("lib_mtime" if key.startswith("lib:") else "source_mtime")
+                    pending.add("lib_mtime" if key.startswith("lib") else "source_mtime")
                 elif k == "add":
                     if not world.late:
                         continue
